@@ -20,7 +20,7 @@ RULE = ("ttl {1,1.5,4,3600,none} x delivery instant {E-1s,E-1us,E,E+1us,E+1s} x 
 ASSUMPTIONS = ["Redis and RabbitMQ are wire-level fakes", "virtual time; exact instants only at zero wire latency (redis polls priorities with 0.1 s sleeps, so its instants are approximate; the oracle uses the observed instants)",
                "with wire latency l the execution allowance after E is 2l + 0.35 s"]
 EVAL_COUNTER = "messages_judged"
-REQUIRED = ["messages_judged", "executed_live", "dead_lettered_expired", "dead_retrieved", "boundary_exact", "kind_retry_cross", "kind_retry_late", "kind_resched"]
+REQUIRED = ["messages_judged", "executed_live", "dead_lettered_expired", "dead_retrieved", "boundary_exact", "kind_retry_cross", "kind_retry_late", "kind_resched", "priority_high", "priority_low"]
 CASE_TIMEOUT = 120
 
 TTLS = [1.0, 1.5, 4.0, 3600.0, 90000.0, 172800.0, None]
@@ -82,7 +82,11 @@ async def scenario(loop, case, out, stats, fps, samples):
         loop.jump(1.0 + case.get("phase", 0.0))
         t0 = datetime.now()
         ttl_td = timedelta(seconds=ttl) if ttl is not None else None
-        kw = dict(ttl=ttl_td, timeout=timedelta(seconds=30), store_result=False)
+        from repid import PrioritiesT
+
+        prio = [PrioritiesT.MEDIUM, PrioritiesT.HIGH, PrioritiesT.LOW][case["seed"] % 3]  # dead-lettering keeps the priority
+        stats["priority_" + prio.name.lower()] += 1
+        kw = dict(ttl=ttl_td, timeout=timedelta(seconds=30), store_result=False, priority=prio)
         script = {"do": "ok"}
         expect = None  # "exec" | "dead" | None (decided by the oracle from observed instants)
         first_delivery_at = None
